@@ -221,9 +221,10 @@ def import_constriction(proto):
 
 
 CASE_TIMEOUT = float(os.environ.get("PYFRONT_CASE_TIMEOUT", "10"))
+STARTUP_GRACE = float(os.environ.get("PYFRONT_STARTUP_GRACE", "180"))
 
 
-def run_worker(args, rep, label, timeout=None):
+def run_worker(args, rep, label, timeout=None, scale=1.0):
     """runs `pyfront.py <args>` and absorbs its oracle lines.  The worker prints a line before
     every case, so `timeout` (seconds without a new line; a `RUNNING … timeout=<s>` line sets its
     own) bounds the time of one case.  Returns (status, extra): status is "done" (the worker
@@ -237,7 +238,10 @@ def run_worker(args, rep, label, timeout=None):
     fd = p.stdout.fileno()
     buf = b""
     extra = []
-    limit = timeout or CASE_TIMEOUT
+    # until the worker has printed its first line the limit is generous: interpreter start-up and the
+    # imports of numpy / scipy / the extension take many seconds on a cold file cache or a loaded
+    # machine, and must not be mistaken for a hanging case
+    limit = max(timeout or CASE_TIMEOUT, STARTUP_GRACE)
     status = None
     while True:
         ready, _, _ = select.select([fd], [], [], limit)
@@ -262,7 +266,7 @@ def run_worker(args, rep, label, timeout=None):
                 if line.startswith("RUNNING "):
                     for tok in line.split(" ", 4)[:4]:
                         if tok.startswith("timeout="):
-                            limit = float(tok[8:])
+                            limit = float(tok[8:]) * scale
     rc = p.wait()
     if status is None:
         status = "done" if "DONE" in extra else ("abort" if rc is not None and rc < 0 else "exit")
@@ -1306,7 +1310,16 @@ def campaign_diff(rep, seed, tier, only_id=None):
         _, cid, tmo, label, text = (running[-1].split(" ", 4) + [""])[:5]
         coder = label.split(".")[0]
         replay = "replay: tools/pyfront.py case %d %s %s" % (seed, tier, cid)
-        if status == "hang":
+        if status == "hang" and only_id is None and not os.environ.get("PYFRONT_NO_CONFIRM"):
+            # confirm before reporting: the same case alone, with a ten times longer limit
+            sub2 = Report()
+            st2, _ = run_worker(["_gen", str(seed), tier, cases + ".confirm", "0", cid], sub2, "gen", timeout=10 * CASE_TIMEOUT, scale=10.0)
+            if st2 != "hang":
+                rep.count("C10.py.slow_case_confirmed_not_hanging")
+                status = "slow"
+        if status == "slow":
+            pass
+        elif status == "hang":
             rep.eval("C10")
             rep.fail("C10", "python front end hangs: no result after %s s (killed) on a valid case [seed=%d tier=%s case %s %s; %s] case=%s"
                      % (tmo[8:], seed, tier, cid, label, replay, text))
@@ -1314,7 +1327,7 @@ def campaign_diff(rep, seed, tier, only_id=None):
             rep.eval("C20")
             rep.fail("C20", "python front end: interpreter died (%s) on a valid case [seed=%d tier=%s case %s %s; %s] case=%s"
                      % (extra[-1], seed, tier, cid, label, replay, text))
-        rep.count("%s.py.%s" % ("C10" if status == "hang" else "C20", status))
+        rep.count("%s.py.%s" % ("C10" if status in ("hang", "slow") else "C20", status))
         start = int(groups[-1].split()[1]) + 1
         restarts += 1
         if only_id is not None:
@@ -1935,7 +1948,20 @@ def campaign_ctor(rep, seed, tier, only_idx=None):
             rep.error("ctor worker ended early (%s) without a running case" % status)
             break
         if status == "hang":
-            results[running] = ("hang", "no result after %g s: the constructor, or coding with the model it returned, never finishes (killed)" % CTOR_TIMEOUT)
+            # confirm before reporting: the case alone, with a ten times longer limit (a slow machine
+            # or a cold cache must not turn into "the constructor never finishes")
+            confirmed = True
+            if only_idx is None:
+                sub2 = Report()
+                st2, extra2 = run_worker(["_ctor", str(seed), tier, str(running), "only"], sub2, "ctor", timeout=10 * CTOR_TIMEOUT)
+                res2 = [l for l in extra2 if l.startswith("RESULT ")]
+                if st2 != "hang" and res2:
+                    _, idx2, outcome2, detail2 = (res2[-1].split(" ", 3) + [""])[:4]
+                    results[running] = (outcome2, detail2)
+                    rep.count("C19.py.slow_case_confirmed_not_hanging")
+                    confirmed = False
+            if confirmed:
+                results[running] = ("hang", "no result after %g s (and again after %g s when run alone): the constructor, or coding with the model it returned, never finishes (killed)" % (CTOR_TIMEOUT, 10 * CTOR_TIMEOUT))
         else:
             results[running] = ("abort", "interpreter died (%s)" % extra[-1])
         start = running + 1
